@@ -497,3 +497,472 @@ def first_failure(scs, aspects, dedup=False):
         if r:
             return r
     return None
+
+
+# ---- PDF (pypdf writer; images are DCT streams so that get_data() is the embedded JPEG) ----
+def build_pdf(sc, bad_width_first=False):
+    from pypdf import PdfWriter
+    from pypdf.generic import ArrayObject, DictionaryObject, NameObject, NumberObject, StreamObject, TextStringObject
+    w = PdfWriter()
+    k = 0
+    for anchors in sc.units:
+        page = w.add_blank_page(width=200, height=200)
+        xo = DictionaryObject()
+        ops_ = []
+        for a in anchors:
+            if a.kind != "embedded" or a.media not in sc.media:
+                continue
+            k += 1
+            data = sc.media[a.media]
+            size = declared_size(data) or (1, 1)
+            so = StreamObject()
+            so._data = data
+            so[NameObject("/Type")] = NameObject("/XObject")
+            so[NameObject("/Subtype")] = NameObject("/Image")
+            so[NameObject("/Width")] = TextStringObject("wide") if (bad_width_first and k == 1) else NumberObject(size[0])
+            so[NameObject("/Height")] = NumberObject(size[1])
+            so[NameObject("/ColorSpace")] = NameObject("/DeviceRGB")
+            so[NameObject("/BitsPerComponent")] = NumberObject(8)
+            so[NameObject("/Filter")] = NameObject("/DCTDecode")
+            xo[NameObject(f"/Im{k}")] = w._add_object(so)
+            ops_.append(f"q 50 0 0 50 {10 * k} 10 cm /Im{k} Do Q")
+        res = DictionaryObject()
+        res[NameObject("/XObject")] = xo
+        page[NameObject("/Resources")] = res
+        cs = StreamObject()
+        cs._data = "\n".join(ops_).encode()
+        page[NameObject("/Contents")] = w._add_object(cs)
+    buf = io.BytesIO()
+    w.write(buf)
+    return buf.getvalue()
+
+
+BUILDERS["pdf"] = build_pdf
+MEDIA_DIR["pdf"] = "img"
+PAGED.add("pdf")
+UNIT_NUMBERED.add("pdf")
+_read0 = read
+
+
+def read(fmt, data):       # noqa: F811
+    if fmt == "pdf":
+        from sharepoint2text.parsing.extractors.pdf.pdf_extractor import read_pdf
+        return list(read_pdf(io.BytesIO(data), "a.pdf"))[0]
+    return _read0(fmt, data)
+
+
+def pdf_scenario(units):
+    """units: list of lists of (w, h): JPEG images."""
+    media, us, k = {}, [], 0
+    for u in units:
+        anchors = []
+        for (w, h) in u:
+            k += 1
+            part = f"img/i{k}.jpg"
+            media[part] = jpeg(w, h, bytes([k]))
+            anchors.append(Anchor(part))
+        us.append(anchors)
+    return Scenario("pdf", us, media)
+
+
+# ---- corrupt member: listed in the archive, but reading it fails (bad CRC) ----
+def corrupt_member(zbytes, name):
+    z = zipfile.ZipFile(io.BytesIO(zbytes))
+    files = [(i, z.read(i.filename)) for i in z.infolist()]
+    buf = io.BytesIO()
+    with zipfile.ZipFile(buf, "w") as out:
+        for i, data in files:
+            out.writestr(zipfile.ZipInfo(i.filename), data, compress_type=zipfile.ZIP_STORED if i.filename == name else zipfile.ZIP_DEFLATED)
+    raw = bytearray(buf.getvalue())
+    z2 = zipfile.ZipFile(io.BytesIO(bytes(raw)))
+    info = z2.getinfo(name)
+    off = info.header_offset + 30 + len(info.filename.encode()) + len(info.extra)
+    raw[off + info.file_size - 1] ^= 0xFF
+    return bytes(raw)
+
+
+# =========================================================================== function-level checks ==
+BASES = ["ppt/slides", "word", "xl/drawings", "xl/worksheets", "OEBPS", "OEBPS/", "", "a/b/c"]
+TARGETS = ["media/image1.png", "../media/image1.png", "/ppt/media/image1.png", "./media/i.png", "../../x.png", "a//b.png", "../media/../media/i.png",
+           "image1.png", "/", "", "..", "../..", "sub/../i.png", "/a/./b/../c.png", "./../media/i.png"]
+
+
+def _imp(modname):
+    import importlib
+    return importlib.import_module(modname)
+
+
+def check_resolver(which):
+    """-> failure dict or None: the real resolver against the spec function on a grid of (base_dir, target)."""
+    import inspect
+    px = _imp("sharepoint2text.parsing.extractors.ms_modern.pptx_extractor")
+    xx = _imp("sharepoint2text.parsing.extractors.ms_modern.xlsx_extractor")
+    ep = _imp("sharepoint2text.parsing.extractors.epub_extractor")
+    zu = _imp("sharepoint2text.parsing.extractors.util.zip_utils")
+    cases = []
+    if which == "_normalize_relative_path":
+        cases = [((b, t), lambda b=b, t=t: px._normalize_relative_path(b, t), resolve(b, t)) for b in BASES for t in TARGETS]
+    elif which == "resolve_part_name":
+        f = getattr(zu, "resolve_part_name", None)
+        if f is None:
+            return None
+        cases = [((b, t), lambda b=b, t=t: f(b, t), resolve(b, t)) for b in BASES for t in TARGETS]
+    elif which == "_resolve_drawing_path":
+        cases = [((t,), lambda t=t: xx._resolve_drawing_path(t), resolve("xl/worksheets", t)) for t in TARGETS + ["../drawings/drawing1.xml", "/xl/drawings/drawing1.xml", "drawing1.xml"]]
+    elif which == "_resolve_image_path":
+        n = len(inspect.signature(xx._resolve_image_path).parameters)
+        for dp in ("xl/drawings/drawing1.xml", "xl/d/e/drawing1.xml", "drawing1.xml"):
+            d = dp.rsplit("/", 1)[0] if "/" in dp else ""
+            for t in TARGETS:
+                cases.append(((t, dp), (lambda t=t, dp=dp: xx._resolve_image_path(t, dp)) if n == 2 else (lambda t=t: xx._resolve_image_path(t)), resolve(d, t)))
+    elif which == "resolve_href":
+        for od in ("OEBPS/", "", "a/b/"):
+            ctx = ep._EpubContext.__new__(ep._EpubContext)
+            ctx._opf_dir = od
+            cases.extend([((od, t), lambda ctx=ctx, t=t: ctx.resolve_href(t), resolve(od, t)) for t in TARGETS])
+    for (args, call, want) in cases:
+        try:
+            got = call()
+        except Exception as e:  # noqa
+            got = f"{type(e).__name__}: {e}"
+        if got != want:
+            return {"target": which, "inputs": {"args": list(args)}, "expected": want, "observed": got}
+    return None
+
+
+def jpeg_variants(rnd):
+    w, h = rnd.randint(1, 4000), rnd.randint(1, 4000)
+    app = b"\xff\xe1" + struct.pack(">H", 6) + b"Exif"
+    com = b"\xff\xfe" + struct.pack(">H", 4) + b"hi"
+    dqt = b"\xff\xdb" + struct.pack(">H", 67) + bytes(65)
+    yield "plain", jpeg(w, h), (w, h)
+    yield "two segments", jpeg(w, h, pre=(app, com)), (w, h)
+    yield "three segments, progressive", jpeg(w, h, pre=(app, dqt, com), sof=0xC2), (w, h)
+    yield "fill byte before the first marker", b"\xff\xd8\xff" + jpeg(w, h)[2:], (w, h)
+    yield "fill bytes before the frame header", jpeg(w, h, pre=(app + b"\xff\xff",)), (w, h)
+    yield "DHT (C4) before the frame header", jpeg(w, h, pre=(b"\xff\xc4" + struct.pack(">H", 5) + b"\x00\x01\x02",)), (w, h)
+
+
+def check_sniffers(which=None):
+    """The real sniffers against the reference reader `declared_size` (format specifications) on generated files."""
+    d = _imp("sharepoint2text.parsing.extractors.ms_modern.docx_extractor")._get_image_pixel_dimensions
+    p = _imp("sharepoint2text.parsing.extractors.ms_modern.pptx_extractor")._get_image_pixel_dimensions
+    x = _imp("sharepoint2text.parsing.extractors.ms_modern.xlsx_extractor")._get_image_pixel_dimensions
+    iu = _imp("sharepoint2text.parsing.extractors.util.image_utils")
+    fns = {"docx_extractor.py": d, "pptx_extractor.py": p, "xlsx_extractor.py": x,
+           "get_image_dimensions": None, "get_jpeg_dimensions": iu.get_jpeg_dimensions}
+    rnd = random.Random(11)
+    files = []
+    for _ in range(6):
+        w, h = rnd.randint(1, 70000), rnd.randint(1, 70000)
+        files.append(("png", "png", png(w, h), (w, h)))
+        w, h = rnd.randint(1, 65535), rnd.randint(1, 65535)
+        files.append(("gif", "gif", gif(w, h), (w, h)))
+        files.append(("gif87", "gif", b"GIF87a" + gif(w, h)[6:], (w, h)))
+        w, h = rnd.randint(1, 100000), rnd.randint(1, 100000)
+        files.append(("bmp", "bmp", bmp(w, h), (w, h)))
+        files.append(("bmp top-down", "bmp", bmp(w, -h), (w, h)))
+        for (what, data, size) in jpeg_variants(rnd):
+            files.append(("jpeg " + what, "jpeg", data, size))
+    files.append(("not an image", "bin", b"hello world, no signature here....", None))
+    files.append(("empty", "bin", b"", None))
+    for name, fn in fns.items():
+        if which and which not in name:
+            continue
+        for (what, typ, data, size) in files:
+            if name == "get_image_dimensions":
+                if size is None:
+                    continue
+                got = iu.get_image_dimensions(data, typ)
+            elif name == "get_jpeg_dimensions":
+                if typ != "jpeg":
+                    continue
+                got = fn(data)
+            else:
+                got = fn(data)
+            want = tuple(size) if size else (None, None)
+            if tuple(got) != want:
+                return {"target": name, "inputs": {"file": what, "head": list(data[:32]), "len": len(data)}, "expected": list(want), "observed": list(got)}
+    # the three OOXML copies agree (bounded differential run, also on malformed inputs)
+    if not which or which == "agree":
+        for (what, typ, data, size) in files:
+            for cut in (len(data), 3, 9, 20, 25, len(data) // 2):
+                dd = data[:cut]
+                r = {n: tuple(f(dd)) for n, f in fns.items() if n.endswith("_extractor.py")}
+                if len(set(r.values())) != 1:
+                    return {"target": "agree", "inputs": {"file": what, "cut": cut, "head": list(dd[:32])}, "expected": "equal results", "observed": {k: list(v) for k, v in r.items()}}
+    return None
+
+
+# ---- data_types: unit view vs document view on hand-built content objects (bounded: <= 3 elements x <= 2 images) ----
+def check_views(cls=None):
+    dt = _imp("sharepoint2text.parsing.extractors.data_types")
+    mk_img = {"PdfContent": lambda k: dt.PdfImage(index=k, data=bytes([k])), "PptxContent": lambda k: dt.PptxImage(image_index=k, blob=bytes([k])),
+              "XlsxContent": lambda k: dt.XlsxImage(image_index=k, data=io.BytesIO(bytes([k]))),
+              "OdpContent": lambda k: dt.OpenDocumentImage(image_index=k, data=io.BytesIO(bytes([k]))),
+              "OdsContent": lambda k: dt.OpenDocumentImage(image_index=k, data=io.BytesIO(bytes([k])))}
+    mk_el = {"PdfContent": lambda imgs, tabs, k: dt.PdfPage(text=f"p{k}", images=imgs, tables=tabs),
+             "PptxContent": lambda imgs, tabs, k: dt.PptxSlide(slide_number=k, images=imgs, tables=tabs),
+             "XlsxContent": lambda imgs, tabs, k: dt.XlsxSheet(name=f"S{k}", images=imgs, data=(tabs[0] if tabs else [])),
+             "OdpContent": lambda imgs, tabs, k: dt.OdpSlide(slide_number=k, images=imgs, tables=tabs),
+             "OdsContent": lambda imgs, tabs, k: dt.OdsSheet(name=f"S{k}", images=imgs, data=(tabs[0] if tabs else []))}
+    field = {"PdfContent": "pages", "PptxContent": "slides", "XlsxContent": "sheets", "OdpContent": "slides", "OdsContent": "sheets"}
+    for c in ([cls] if cls else list(field)):
+        for shape in itertools.product([0, 1, 2], repeat=3):
+            for n in range(0, 4):
+                k = 0
+                els = []
+                for e in range(n):
+                    imgs = []
+                    for _ in range(shape[e]):
+                        k += 1
+                        imgs.append(mk_img[c](k))
+                    tabs = [[[f"t{e}{j}"]] for j in range(shape[(e + 1) % 3])]
+                    els.append(mk_el[c](imgs, tabs, e + 1))
+                content = getattr(dt, c)(**{field[c]: els})
+                units = list(content.iterate_units())
+                doc = list(content.iterate_images())
+                flat = [i for u in units for i in u.get_images()]
+                want = [i for e in els for i in e.images]
+                inputs = {"class": c, "images_per_element": list(shape[:n])}
+                if [id(x) for x in doc] != [id(x) for x in want]:
+                    return {"target": f"{c}.iterate_images", "inputs": inputs, "expected": "the images of the elements in order", "observed": f"{len(doc)} images"}
+                if [id(x) for x in flat] != [id(x) for x in doc]:
+                    return {"target": f"{c}.iterate_units", "inputs": inputs, "expected": "concat(u.get_images()) == list(iterate_images())",
+                            "observed": f"{len(flat)} unit images vs {len(doc)} document images"}
+                if len(units) != n:
+                    return {"target": f"{c}.iterate_units", "inputs": inputs, "expected": f"{n} units", "observed": f"{len(units)}"}
+                dtabs = [t.get_table() for t in content.iterate_tables()]
+                for u in units:
+                    for t in u.get_tables():
+                        if t.get_table() not in dtabs:
+                            return {"target": f"{c}.iterate_units", "inputs": inputs, "expected": "unit tables among the document tables", "observed": repr(t.get_table())}
+                wt = [t for e in els for t in (e.tables if hasattr(e, "tables") else [e.data])]
+                if dtabs != wt:
+                    return {"target": f"{c}.iterate_tables", "inputs": inputs, "expected": f"{len(wt)} tables in element order", "observed": f"{len(dtabs)}"}
+    return None
+
+
+# =========================================================================== findings / dispatch ==
+def _img(k, ext="png"):
+    rnd = random.Random(100 + k)
+    return make_image(rnd, ext, k)
+
+
+def witness(kind, fmt):
+    """Named witness scenarios -> failure dict or None (None: the real code satisfies the property on it)."""
+    md = MEDIA_DIR.get(fmt, "")
+    A, B = _img(1), _img(2, "gif")
+    if kind == "numbering-per-unit":
+        if fmt == "pdf":
+            return first_failure([pdf_scenario([[(30, 20)], [(31, 21), (32, 22)]])], ("numbering",))
+        return first_failure([simple(fmt, ["relative"], n_units=2, per_unit=2)], ("numbering",))
+    if kind == "gap-missing":
+        sc = Scenario(fmt, [[Anchor(f"{md}/m.png", "relative", "missing"), Anchor(f"{md}/a.png")]], {f"{md}/a.png": A})
+        return first_failure([sc], ("numbering",))
+    if kind == "corrupt-member":
+        sc = Scenario(fmt, [[Anchor(f"{md}/a.png"), Anchor(f"{md}/b.gif")]], {f"{md}/a.png": A, f"{md}/b.gif": B})
+        data = corrupt_member(BUILDERS[fmt](sc), f"{md}/a.png")
+        obs = observe(read(fmt, data))
+        nums = [o[2].get("image_number") for o in obs]
+        if nums != list(range(1, len(obs) + 1)):
+            return {"target": f"{fmt}: iterate_images()", "aspect": "numbering", "inputs": dict(sc.describe(), corrupt_member=f"{md}/a.png (bad CRC: listed, unreadable)"),
+                    "expected": f"running numbers {list(range(1, len(obs) + 1))}", "observed": f"{nums} (bytes lengths {[len(o[0]) for o in obs]})"}
+        return None
+    if kind == "pdf-bad-candidate":
+        sc = pdf_scenario([[(30, 20), (31, 21)]])
+        obs = observe(read("pdf", build_pdf(sc, bad_width_first=True)))
+        nums = [o[2].get("image_number") for o in obs]
+        if nums != list(range(1, len(obs) + 1)):
+            return {"target": "pdf: iterate_images()", "aspect": "numbering", "inputs": dict(sc.describe(), first_image="/Width is a string: extraction of this candidate raises"),
+                    "expected": f"running numbers {list(range(1, len(obs) + 1))}", "observed": f"{nums}"}
+        return None
+    if kind == "pixel-size":
+        if fmt == "xlsx":
+            sc = simple("xlsx", ["relative"], 1, 1)
+            data = BUILDERS["xlsx"](sc)
+            z = zipfile.ZipFile(io.BytesIO(data))
+            files = {n: z.read(n) for n in z.namelist()}
+            d = files["xl/drawings/drawing1.xml"].decode().replace("</xdr:from>", '</xdr:from><xdr:ext cx="95250" cy="190500"/>', 1)
+            files["xl/drawings/drawing1.xml"] = d.encode()
+            c = read("xlsx", zip_bytes(files))
+            obs = observe(c)
+            want = declared_size(list(sc.media.values())[0])
+            got = (obs[0][2].get("width"), obs[0][2].get("height")) if obs else None
+            if got != tuple(want):
+                return {"target": "xlsx: iterate_images()", "aspect": "pixel-size", "inputs": dict(sc.describe(), anchor="oneCellAnchor with xdr:ext cx=95250 cy=190500 (10 x 20 px at 96 dpi)"),
+                        "expected": f"{tuple(want)} (declared by the file)", "observed": f"{got}"}
+            return None
+        return first_failure([simple(fmt, ["relative"], 1, 1)], ("pixel-size",))
+    if kind == "order":
+        if fmt == "docx":
+            sc = Scenario("docx", [[Anchor("word/media/a.png"), Anchor("word/media/b.gif")]], {"word/media/a.png": A, "word/media/b.gif": B})
+            data = build_docx(sc)
+            z = zipfile.ZipFile(io.BytesIO(data))
+            files = {n: z.read(n) for n in z.namelist()}
+            import re
+            rels = files["word/_rels/document.xml.rels"].decode()
+            rows = re.findall(r"<Relationship [^>]*/>", rels)
+            files["word/_rels/document.xml.rels"] = rels.replace("".join(rows), "".join(reversed(rows))).encode()
+            obs = observe(read("docx", zip_bytes(files)))
+            note = "relationship part lists rId2 before rId1; the body places rId1 (a.png) first"
+        elif fmt == "odt":
+            fr1 = '<draw:frame draw:name="P1"><draw:image xlink:href="Pictures/a.png"/></draw:frame>'
+            fr2 = ('<draw:frame draw:name="outer"><draw:text-box><text:p>Caption<draw:frame draw:name="P2"><draw:image xlink:href="Pictures/b.gif"/>'
+                   '</draw:frame></text:p></draw:text-box></draw:frame>')
+            content = (f'<?xml version="1.0"?><office:document-content {ODFNS}><office:body><office:text><text:p>{fr1}</text:p><text:p>{fr2}</text:p>'
+                       f'</office:text></office:body></office:document-content>')
+            sc = Scenario("odt", [[Anchor("Pictures/a.png"), Anchor("Pictures/b.gif")]], {"Pictures/a.png": A, "Pictures/b.gif": B})
+            obs = observe(read("odt", zip_bytes({"content.xml": content, "Pictures/a.png": A, "Pictures/b.gif": B}, first=("mimetype", ODF_MIME["odt"]))))
+            note = "a plain frame (a.png) followed by a captioned text-box frame (b.gif)"
+        elif fmt == "xlsx":
+            sc = Scenario("xlsx", [[Anchor("xl/media/a.png"), Anchor("xl/media/b.gif")]], {"xl/media/a.png": A, "xl/media/b.gif": B})
+            data = build_xlsx(sc)
+            z = zipfile.ZipFile(io.BytesIO(data))
+            files = {n: z.read(n) for n in z.namelist()}
+            import re
+            d = files["xl/drawings/drawing1.xml"].decode()
+            parts = re.findall(r"<xdr:oneCellAnchor>.*?</xdr:oneCellAnchor>", d)
+            two = parts[0].replace("oneCellAnchor", "twoCellAnchor").replace("</xdr:from>", "</xdr:from><xdr:to><xdr:col>5</xdr:col><xdr:colOff>0</xdr:colOff><xdr:row>5</xdr:row><xdr:rowOff>0</xdr:rowOff></xdr:to>")
+            files["xl/drawings/drawing1.xml"] = d.replace(parts[0], two).encode()
+            obs = observe(read("xlsx", zip_bytes(files)))
+            note = "drawing lists a twoCellAnchor (a.png) before a oneCellAnchor (b.gif)"
+        elif fmt == "epub":
+            sc = Scenario("epub", [[Anchor("OEBPS/images/a.png"), Anchor("OEBPS/images/b.gif")]], {"OEBPS/images/a.png": A, "OEBPS/images/b.gif": B})
+            data = build_epub(sc)
+            z = zipfile.ZipFile(io.BytesIO(data))
+            files = {n: z.read(n) for n in z.namelist() if n != "mimetype"}
+            import re
+            opf = files["OEBPS/content.opf"].decode()
+            items = re.findall(r'<item id="img[^>]*/>', opf)
+            files["OEBPS/content.opf"] = opf.replace("".join(items), "".join(reversed(items))).encode()
+            obs = observe(read("epub", zip_bytes(files, first=("mimetype", "application/epub+zip"))))
+            note = "manifest lists b.gif before a.png; chapter 1 shows a.png first"
+        else:
+            return None
+        got = [o[0] for o in obs if o[0]]
+        if got != [A, B]:
+            return {"target": f"{fmt}: iterate_images()", "aspect": "order", "inputs": dict(sc.describe(), arrangement=note),
+                    "expected": "images numbered in document order: a.png = 1, b.gif = 2",
+                    "observed": [("a.png" if o[0] == A else "b.gif" if o[0] == B else "?", o[2].get("image_number")) for o in obs]}
+        return None
+    if kind == "odf-dot-href":
+        return first_failure([simple(fmt, ["dot"], 1, 1)], ("resolution",))
+    if kind == "resolution":
+        scs = [simple(fmt, [st], 1 if fmt in ("docx", "odt") else 2, 2) for st in (("relative", "parent", "absolute", "dot") if fmt not in ("odt", "odp", "ods", "odg") else ("relative", "dot"))]
+        if fmt == "xlsx":
+            scs.append(Scenario("xlsx", [[Anchor("xl/drawings/media/image1.png", "relative")]], {"xl/drawings/media/image1.png": A, "xl/media/image1.png": B},
+                                note="media part next to the drawing; another part with the same base name in xl/media"))
+        return first_failure(scs, ("resolution", "bytes"))
+    return None
+
+
+FMT_OF = {"docx_extractor": "docx", "pptx_extractor": "pptx", "xlsx_extractor": "xlsx", "odt_extractor": "odt", "odp_extractor": "odp",
+          "ods_extractor": "ods", "odg_extractor": "odg", "epub_extractor": "epub", "pdf_extractor": "pdf"}
+
+
+def search(ob):
+    """Native small-scope search for the obligation id `ob` -> failure dict or None."""
+    mod = ob.split("/")[1].split(".py")[0] if "/" in ob else ""
+    fmt = FMT_OF.get(mod)
+    if "zip_utils.py::resolve_part_name" in ob:
+        return check_resolver("resolve_part_name")
+    if "_normalize_relative_path" in ob:
+        return check_resolver("_normalize_relative_path") or witness("resolution", "pptx")
+    if "_resolve_drawing_path" in ob:
+        return check_resolver("_resolve_drawing_path")
+    if "/resolution#" in ob:
+        if fmt == "xlsx":
+            return check_resolver("_resolve_image_path") or witness("resolution", "xlsx")
+        if fmt == "epub":
+            return check_resolver("resolve_href") or witness("resolution", "epub")
+        return witness("resolution", fmt)
+    if "_get_image_pixel_dimensions" in ob:
+        return check_sniffers(mod + ".py") or check_sniffers("agree")
+    if "get_jpeg_dimensions" in ob:
+        return check_sniffers("get_jpeg_dimensions")
+    if "get_image_dimensions" in ob:
+        return check_sniffers("get_image_dimensions")
+    if "/numbering#counter-starts" in ob:
+        return witness("numbering-per-unit", fmt)
+    if "/numbering#" in ob:
+        for k in ("gap-missing", "corrupt-member", "pdf-bad-candidate"):
+            if (k == "pdf-bad-candidate") != (fmt == "pdf"):
+                continue
+            r = witness(k, fmt)
+            if r:
+                return r
+        return sweep(fmt, ("numbering",))
+    if "/pixel-size#" in ob:
+        return witness("pixel-size", fmt)
+    if "/order#" in ob:
+        return witness("order", fmt)
+    if "/bytes#" in ob or "/content-type#" in ob or "/unit#" in ob:
+        asp = {"bytes": ("resolution", "bytes", "no-foreign"), "content-type": ("content-type",), "unit": ("unit",)}[ob.split("/")[-1].split("#")[0]]
+        return sweep(fmt, asp)
+    if "data_types.py" in ob:
+        cls = ob.split("::")[1].split(".")[0] if "::" in ob else None
+        return check_views(cls if cls and cls.endswith("Content") else None)
+    return None
+
+
+def sweep(fmt, aspects, seeds=(0, 1), count=25):
+    if fmt is None:
+        return None
+    if fmt == "pdf":
+        return first_failure([pdf_scenario([[(30, 20), (10, 11)]]), pdf_scenario([[(5, 6)]])], aspects)
+    styles = ("relative",) if fmt in ("odt", "odp", "ods", "odg") else ("relative", "parent", "absolute", "dot")
+    for seed in seeds:
+        r = first_failure(gen_scenarios(fmt, seed, count, styles=styles), aspects, dedup=fmt in ("odt", "odg"))
+        if r:
+            return r
+    return None
+
+
+def exclusion_sweep(kind, fmt):
+    """Bounded native check of the obligation OUTSIDE the recorded exclusion (DESIGN 2.7 step 2, done natively here):
+    generated documents that avoid the recorded failing shape must satisfy the aspect -> failure dict or None."""
+    if kind == "numbering-per-unit":
+        if fmt == "pdf":
+            return first_failure([pdf_scenario([[(30, 20), (31, 21), (9, 9)]]), pdf_scenario([[(5, 6)]])], ("numbering",))
+        return first_failure(gen_scenarios(fmt, 3, 12, max_units=1, kinds=("embedded", "external", "missing")), ("numbering",))
+    if kind in ("corrupt-member", "pdf-bad-candidate"):
+        if fmt == "pdf":
+            return first_failure([pdf_scenario([[(30, 20), (31, 21)]])], ("numbering",))
+        return first_failure(gen_scenarios(fmt, 4, 12, styles=("relative",), max_units=1), ("numbering",), dedup=fmt in ("odt", "odg"))
+    if kind == "gap-missing":
+        return first_failure(gen_scenarios(fmt, 5, 12, styles=("relative",), kinds=("embedded", "external")), ("numbering",))
+    if kind == "pixel-size":
+        if fmt == "xlsx":       # anchors without an extent of their own
+            return first_failure(gen_scenarios(fmt, 6, 12, styles=("relative",)), ("pixel-size",))
+        # every embedded file that declares a size is affected; files that declare none are outside the clause
+        sc = Scenario(fmt, [[Anchor(f"{MEDIA_DIR[fmt]}/x.png")]], {f"{MEDIA_DIR[fmt]}/x.png": b"no image header here, just bytes"})
+        return first_failure([sc], ("pixel-size", "bytes"))
+    if kind == "order":
+        styles = ("relative",) if fmt in ("odt", "odp", "ods", "odg") else ("relative", "absolute")
+        return first_failure(gen_scenarios(fmt, 7, 12, styles=styles, kinds=("embedded",), share=False, max_units=1 if fmt == "epub" else 3),
+                             ("resolution", "bytes"), dedup=fmt in ("odt", "odg"))
+    if kind == "odf-dot-href":
+        return first_failure(gen_scenarios(fmt, 8, 12, styles=("relative",), kinds=("embedded", "missing", "external")), ("resolution", "bytes"), dedup=fmt in ("odt", "odg"))
+    return None
+
+
+def find(req):
+    if req.get("known_finding"):
+        w = req.get("witness") or {}
+        r = witness(w.get("kind"), w.get("format"))
+        out = dict(r, reproduced=True) if r else {"reproduced": False, "note": "the recorded witness satisfies the property now"}
+        try:
+            x = exclusion_sweep(w.get("kind"), w.get("format"))
+        except Exception as e:  # noqa
+            x = {"observed": f"sweep crashed: {type(e).__name__}: {e}", "expected": "", "inputs": {}}
+        out["outside_exclusion"] = x          # None: nothing fails outside the recorded exclusion (bounded native sweep)
+        return out
+    r = search(req.get("obligation", ""))
+    if r:
+        return dict(r, reproduced=True)
+    return {"reproduced": False, "note": "native small-scope search found no failing input"}
+
+
+def rerun(stored):
+    return find({"obligation": stored.get("obligation", "")})
